@@ -136,7 +136,10 @@ def still_fails(script, mode, kind):
         out = core.run_impl("graph", script, mode)
     except core.ImplBroken:
         return False
-    return any(msg_kind(m) == kind for _, m in oracle(_Null(), script, out))
+    try:
+        return any(msg_kind(m) == kind for _, m in oracle(_Null(), script, out))
+    except Exception:
+        return False
 
 
 def check(tier):
@@ -195,6 +198,8 @@ def check(tier):
         if k in seen:
             continue
         seen.add(k)
+        if len(seen) > 3:
+            break
         script = f["script"]
         if "freshly built" not in f["message"]:
             script = runner.ddmin(script, lambda s: still_fails(s, f["mode"], msg_kind(f["message"])), budget=25)
